@@ -7,10 +7,13 @@ import (
 	"bytes"
 	"context"
 	"crypto/ed25519"
+	"encoding/hex"
+	"encoding/json"
 	"fmt"
 	"sort"
 	"strconv"
 	"strings"
+	"time"
 
 	gmsl "github.com/matrix-org/gomatrixserverlib"
 	"github.com/matrix-org/gomatrixserverlib/spec"
@@ -54,6 +57,89 @@ func c05Key(name string) ed25519.PrivateKey {
 	seed := make([]byte, ed25519.SeedSize)
 	copy(seed, name)
 	return ed25519.NewKeyFromSeed(seed)
+}
+
+func c05Hex(s string) string { return hex.EncodeToString([]byte(s)) }
+
+func c05HexList(l []string) string {
+	r := make([]string, len(l))
+	for i, x := range l {
+		r[i] = c05Hex(x)
+	}
+	return strings.Join(r, ",")
+}
+
+// the accessors the model derives from the redacted JSON (strings in hex)
+func c05AccessorLine(ver string, e gmsl.PDU) string {
+	hydra := ver == "12" || ver == "org.matrix.hydra.11"
+	room := "-" // v12 create events: derived from the event ID (a hash), compared elsewhere
+	if !(hydra && e.Type() == "m.room.create" && e.StateKeyEquals("")) {
+		room = c05Hex(e.RoomID().String())
+	}
+	sk := "nil"
+	if e.StateKey() != nil {
+		sk = c05Hex(*e.StateKey())
+	}
+	membership := "err"
+	if m, err := e.Membership(); err == nil {
+		membership = c05Hex(m)
+	}
+	return fmt.Sprintf("acc redacted=%v type=%s sender=%s room=%s sk=%s redacts=%s unsigned=%s depth=%d ts=%d prev=%s auth=%s membership=%s",
+		e.Redacted(), c05Hex(e.Type()), c05Hex(string(e.SenderID())), room, sk, c05Hex(e.Redacts()), c05Hex(string(e.Unsigned())),
+		e.Depth(), int64(e.OriginServerTS()), c05HexList(e.PrevEventIDs()), c05HexList(e.AuthEventIDs()), membership)
+}
+
+var c05AccessorNames = []string{"EventID", "StateKey", "Type", "Content", "JoinRule", "HistoryVisibility", "Membership", "PowerLevels",
+	"Version", "RoomID", "Redacts", "Redacted", "PrevEventIDs", "OriginServerTS", "SenderID", "Unsigned", "Depth", "JSON", "AuthEventIDs",
+	"IsSticky", "StickyEndTime", "ToHeaderedJSON"}
+
+// every read accessor of the PDU interface, rendered
+func c05AllAccessors(e gmsl.PDU) map[string]string {
+	r := map[string]string{}
+	try := func(name string, f func() string) {
+		defer func() {
+			if x := recover(); x != nil {
+				r[name] = fmt.Sprintf("panic(%v)", x)
+			}
+		}()
+		r[name] = f()
+	}
+	t0 := time.UnixMilli(int64(e.OriginServerTS())).Add(30 * time.Second)
+	try("EventID", func() string { return e.EventID() })
+	try("StateKey", func() string {
+		if e.StateKey() == nil {
+			return "nil"
+		}
+		return "=" + *e.StateKey()
+	})
+	try("Type", func() string { return e.Type() })
+	try("Content", func() string { return string(e.Content()) })
+	try("JoinRule", func() string { v, err := e.JoinRule(); return fmt.Sprintf("%q %v", v, err != nil) })
+	try("HistoryVisibility", func() string { v, err := e.HistoryVisibility(); return fmt.Sprintf("%q %v", v, err != nil) })
+	try("Membership", func() string { v, err := e.Membership(); return fmt.Sprintf("%q %v", v, err != nil) })
+	try("PowerLevels", func() string {
+		v, err := e.PowerLevels()
+		if err != nil || v == nil {
+			return fmt.Sprintf("nil %v", err != nil)
+		}
+		b, _ := json.Marshal(v)
+		return string(b)
+	})
+	try("Version", func() string { return string(e.Version()) })
+	try("RoomID", func() string { return e.RoomID().String() })
+	try("Redacts", func() string { return e.Redacts() })
+	try("Redacted", func() string { return fmt.Sprint(e.Redacted()) })
+	try("PrevEventIDs", func() string { return fmt.Sprintf("%q", e.PrevEventIDs()) })
+	try("OriginServerTS", func() string { return fmt.Sprint(int64(e.OriginServerTS())) })
+	try("SenderID", func() string { return string(e.SenderID()) })
+	try("Unsigned", func() string { return string(e.Unsigned()) })
+	try("Depth", func() string { return fmt.Sprint(e.Depth()) })
+	try("JSON", func() string { return string(e.JSON()) })
+	try("AuthEventIDs", func() string { return fmt.Sprintf("%q", e.AuthEventIDs()) })
+	try("IsSticky", func() string { return fmt.Sprint(e.IsSticky(t0, t0)) })
+	try("StickyEndTime", func() string { return fmt.Sprint(e.StickyEndTime(t0).UnixMilli()) })
+	try("ToHeaderedJSON", func() string { b, err := e.ToHeaderedJSON(); return fmt.Sprintf("%s %v", b, err != nil) })
+	return r
 }
 
 func init() {
@@ -126,6 +212,19 @@ func init() {
 			broken = append(broken, "re-redact-differs")
 		}
 		out := append(append(append([]byte{}, j1...), '\n'), e.Content()...)
+		// every accessor after Redact(): the line the model derives from the redacted JSON ...
+		out = append(out, B("\n"+c05AccessorLine(string(args[0]), e))...)
+		// ... and all of them against a PDU parsed afresh from the event's own JSON()
+		if fresh, err := c05Impl(args[0]).NewEventFromTrustedJSON(j1, true); err != nil {
+			broken = append(broken, "own-json-unparsable")
+		} else {
+			a, b := c05AllAccessors(e), c05AllAccessors(fresh)
+			for _, k := range c05AccessorNames {
+				if a[k] != b[k] {
+					broken = append(broken, fmt.Sprintf("stale-accessor %s: %s, from own JSON: %s", k, a[k], b[k]))
+				}
+			}
+		}
 		if len(broken) > 0 {
 			out = append(out, B("\nBROKEN: "+strings.Join(broken, ","))...)
 		}
@@ -605,7 +704,7 @@ func genC05(c *Ctx) {
 				typ = g.pick([]string{"m.room.message", "m.room.name", "m.room.topic"})
 			}
 			txt, signers := c05Gen{c, true}.pdu(ver, typ, i)
-			c.Run("C05.redact_pdu", Args(ver, txt), "C05.redact_pdu", "", "pdu "+typ)
+			c.Run("C05.redact_pdu", Args(ver, txt), "C05.redact_pdu", "C05.prop.accessors", "pdu "+typ)
 			if !((ver == "12" || ver == "org.matrix.hydra.11") && typ == "m.room.create") {
 				// v12 create events: Sign returns an *eventV2 whose RoomID() panics (DESIGN F4, property C03)
 				c.Run("C05.sign_redact_verify", Args(ver, txt, signers), "C05.const_ok", "", "sign "+typ)
@@ -697,11 +796,19 @@ func (g c05Gen) pdu(ver, typ string, i int) (string, string) {
 		keys = append(keys, "redacts")
 		vals["redacts"] = g.str("$cmVkYWN0ZWQ")
 	}
-	for _, k := range g.subset([]string{"unsigned", "origin", "membership", "prev_state", "x", "age_ts"}, 0.3) {
+	removable := []string{"unsigned", "origin", "membership", "prev_state", "x", "age_ts", "sticky", "msc4354_sticky"}
+	if typ != "m.room.redaction" {
+		removable = append(removable, "redacts")
+	}
+	for _, k := range g.subset(removable, 0.35) {
 		keys = append(keys, k)
 		switch k {
 		case "unsigned":
-			vals[k] = `{"age":5,"x":{"y":1}}`
+			vals[k] = g.pick([]string{`{"age":5,"x":{"y":1}}`, `{"prev_content":{"membership":"leave"},"replaces_state":"$cmVwbA"}`, `{}`})
+		case "redacts":
+			vals[k] = g.str(g.pick([]string{"$dGFyZ2V0", "$t:a", "x"}))
+		case "sticky", "msc4354_sticky":
+			vals[k] = g.pick([]string{`{"duration_ms":60000}`, `{"duration_ms":1}`, `{"duration_ms":3600000}`})
 		case "origin":
 			vals[k] = g.str("a")
 		case "prev_state":
